@@ -309,24 +309,25 @@ where
 
     // ---- how many lines: the driver recomputes every reference scalar multiplication in the affine group
     // (one field inversion per group operation).  `weight` ≈ size of one such multiplication relative to a
-    // 256-bit curve over a prime field; measured driver time per line ≈ 18 ms · weight^0.6.
-    let dcost = [1.0, 1.0, 3.0, 6.0][deg.min(3)];
+    // 256-bit curve over a prime field; measured driver time per line ≈ 20 ms · weight.
+    let dcost = [1.0, 1.0, 1.4, 1.8][deg.min(3)] * if C::KIND == "te" { 1.5 } else { 1.0 };
     let weight = dcost * (fbits / 256.0).powi(2) * ((rbits + hbits) / 512.0);
-    let t_line = 18.0 * weight.powf(0.6);
+    let t_line = 20.0 * weight;
     let lines = if ctx.thorough {
         (12000.0 / t_line).clamp(30.0, 300.0) as usize
     } else {
         (1000.0 / t_line).clamp(6.0, 24.0) as usize
     };
     // minimal plan (the 753/782-bit curves over Fp3 in the quick tier): one whole-curve point W, r·W, G
-    let minimal = lines <= 8;
+    let exhaustive = id.starts_with("toy");
+    let minimal = lines <= 8 && !exhaustive;
     let (n_w, n_s, n_g) = if minimal {
         (1, 1, 1)
     } else {
         let pts = (lines - 2) * 10 / 23;
         ((pts * 40 / 100).max(2), (pts * 25 / 100).max(1), (pts * 35 / 100).max(2))
     };
-    let n_samples = if minimal { 1 } else if ctx.thorough { 2 * (lines / 20).max(2) } else { 2 };
+    let n_samples = if minimal { 1 } else if exhaustive { 16 } else if ctx.thorough { 2 * (lines / 20).max(2) } else { 2 };
 
     let mut rng = Sm::new(ctx.seed ^ id.bytes().fold(0u64, |a, b| a.wrapping_mul(131).wrapping_add(b as u64)));
 
@@ -335,7 +336,17 @@ where
     let n_rand = if n_w >= 2 { ((n_w - n_neg) / 2).max(1) } else { 0 };
     let n_small = n_w - n_neg - n_rand;
     let mut whole: Vec<C::A> = Vec::new();
-    {
+    if exhaustive {
+        // every point of the curve: all coordinates × both roots
+        let pm: u64 = Bpf::<C>::MODULUS.as_ref()[0];
+        for k in 0..pm {
+            for g in [false, true] {
+                if let Some(p) = C::from_coord(small_elem::<BF<C>>(k), g) {
+                    whole.push(p);
+                }
+            }
+        }
+    } else {
         let mut k = 0u64;
         let mut hits = 0usize;
         while hits < n_small && k < 4000 {
@@ -369,7 +380,7 @@ where
     let h = biguint(cof);
     let mut small: Vec<C::A> = Vec::new();
     let mut second: Vec<C::A> = Vec::new();
-    if h > BigUint::from(1u32) {
+    if h > BigUint::from(1u32) && !exhaustive {
         let zero = BigUint::from(0u32);
         let primes: &[u32] = if ctx.thorough { &[2, 3, 5, 7, 11, 13] } else { &[2, 3] };
         for (i, p) in whole.iter().enumerate() {
@@ -432,6 +443,14 @@ where
     // ---- subgroup points: O, G, random multiples of G (thorough: -G, 2G, (r-1)/2·G)
     let g = C::A::generator();
     let mut sub: Vec<C::A> = vec![g];
+    if exhaustive {
+        // the whole subgroup
+        let mut acc = g.into_group();
+        for _ in 0..rl[0] {
+            sub.push(acc.into_affine());
+            acc += g;
+        }
+    }
     for _ in 0..n_g.saturating_sub(1) {
         let k = SF::<C>::rand(&mut rng);
         sub.push(g.mul_bigint(k.into_bigint()).into());
@@ -449,12 +468,13 @@ where
 
     // (point, is a subgroup point, run `clear` on it)
     let mut seen = std::collections::HashSet::new();
-    let all: Vec<(C::A, bool, bool)> = whole
-        .iter()
-        .enumerate()
-        .map(|(i, p)| (*p, false, !minimal || i == 0))
+    let subs: Vec<(C::A, bool, bool)> = sub.iter().map(|p| (*p, true, !minimal)).collect();
+    let (first, last) = if exhaustive { (subs, vec![]) } else { (vec![], subs) };
+    let all: Vec<(C::A, bool, bool)> = first
+        .into_iter()
+        .chain(whole.iter().enumerate().map(|(i, p)| (*p, false, !minimal || i == 0)))
         .chain(small.iter().map(|p| (*p, false, !minimal || lines >= 8)))
-        .chain(sub.iter().map(|p| (*p, true, !minimal)))
+        .chain(last.into_iter())
         .filter(|(p, _, _)| seen.insert(C::show(p)))
         .collect();
 
@@ -516,6 +536,88 @@ where
     }
 }
 
+
+// ------------------------------------------------------------------------------------------------
+// toy curves with cofactor > 1 over tiny fields: every point of the curve is enumerated
+// ------------------------------------------------------------------------------------------------
+mod toy {
+    use ark_ec::{
+        models::CurveConfig,
+        short_weierstrass::{Affine as SWAffine, SWCurveConfig},
+        twisted_edwards::{Affine as TEAffine, MontCurveConfig, TECurveConfig},
+    };
+    use ark_ff::fields::{Fp64, MontBackend, MontConfig};
+    use ark_ff::MontFp;
+
+    macro_rules! field {
+        ($cfg:ident, $ty:ident, $m:literal, $g:literal) => {
+            #[derive(MontConfig)]
+            #[modulus = $m]
+            #[generator = $g]
+            pub struct $cfg;
+            pub type $ty = Fp64<MontBackend<$cfg, 1>>;
+        };
+    }
+    field!(F101Cfg, F101, "101", "2");
+    field!(F103Cfg, F103, "103", "5");
+    field!(F113Cfg, F113, "113", "3");
+    field!(F127Cfg, F127, "127", "3");
+    field!(F17Cfg, F17, "17", "3");
+    field!(F31Cfg, F31, "31", "3");
+
+    macro_rules! sw_toy {
+        ($name:ident, $fq:ty, $fr:ty, $h:literal, $hinv:literal, $a:literal, $b:literal, $gx:literal, $gy:literal) => {
+            #[derive(Clone, Default, PartialEq, Eq)]
+            pub struct $name;
+            impl CurveConfig for $name {
+                type BaseField = $fq;
+                type ScalarField = $fr;
+                const COFACTOR: &'static [u64] = &[$h];
+                const COFACTOR_INV: $fr = MontFp!($hinv);
+            }
+            impl SWCurveConfig for $name {
+                const COEFF_A: $fq = MontFp!($a);
+                const COEFF_B: $fq = MontFp!($b);
+                const GENERATOR: SWAffine<Self> = SWAffine::new_unchecked(MontFp!($gx), MontFp!($gy));
+            }
+        };
+    }
+    // y² = x³ + 3 over F_103: #E = 124 = 4·31, E ≅ Z2 × Z2 × Z31 (full 2-torsion)
+    sw_toy!(Sw103, F103, F31, 4, "8", "0", "3", "72", "44");
+    // y² = x³ + x + 2 over F_127: #E = 136 = 8·17, E ≅ Z2 × Z4 × Z17
+    sw_toy!(Sw127, F127, F17, 8, "15", "1", "2", "60", "110");
+    // y² = x³ + 1 over F_101: #E = 102 = 6·17, cyclic
+    sw_toy!(Sw101, F101, F17, 6, "3", "0", "1", "75", "10");
+
+    macro_rules! te_toy {
+        ($name:ident, $fq:ty, $fr:ty, $h:literal, $hinv:literal, $a:literal, $d:literal, $gx:literal, $gy:literal, $ma:literal, $mb:literal) => {
+            #[derive(Clone, Default, PartialEq, Eq)]
+            pub struct $name;
+            impl CurveConfig for $name {
+                type BaseField = $fq;
+                type ScalarField = $fr;
+                const COFACTOR: &'static [u64] = &[$h];
+                const COFACTOR_INV: $fr = MontFp!($hinv);
+            }
+            impl TECurveConfig for $name {
+                const COEFF_A: $fq = MontFp!($a);
+                const COEFF_D: $fq = MontFp!($d);
+                const GENERATOR: TEAffine<Self> = TEAffine::new_unchecked(MontFp!($gx), MontFp!($gy));
+                type MontCurveConfig = $name;
+            }
+            impl MontCurveConfig for $name {
+                const COEFF_A: $fq = MontFp!($ma);
+                const COEFF_B: $fq = MontFp!($mb);
+                type TECurveConfig = $name;
+            }
+        };
+    }
+    // -x² + y² = 1 + 5x²y² over F_113: #E = 124 = 4·31 (a square, d non-square: complete)
+    te_toy!(Te113, F113, F31, 4, "8", "112", "5", "96", "92", "74", "37");
+    // 4x² + y² = 1 + 3x²y² over F_127: #E = 136 = 8·17
+    te_toy!(Te127, F127, F17, 8, "15", "4", "3", "11", "95", "14", "4");
+}
+
 fn sw<P: SWCurveConfig>(ctx: &mut Ctx, id: &str, tower: &str) {
     run::<SW<P>>(ctx, id, tower, "def", "def", None, "");
 }
@@ -564,6 +666,12 @@ fn main() {
     };
     let cx = &mut ctx;
 
+    // ---------------- toy curves (exhaustive) ----------------
+    sw::<toy::Sw103>(cx, "toy.sw103", "fp");
+    sw::<toy::Sw127>(cx, "toy.sw127", "fp");
+    sw::<toy::Sw101>(cx, "toy.sw101", "fp");
+    te::<toy::Te113>(cx, "toy.te113");
+    te::<toy::Te127>(cx, "toy.te127");
     // ---------------- test-curves ----------------
     {
         use ark_test_curves as t;
